@@ -194,6 +194,12 @@ def norm(v):
         args = [norm(x) for x in v[2]]
         if name in TRANSPARENT_CALLS and len(args) == 1:
             return args[0]
+        if "PartialOrd" not in v[1]:
+            pass
+        elif name.endswith("::gt") and len(args) == 2:
+            name, args = name[:-2] + "lt", args[::-1]
+        elif name.endswith("::ge") and len(args) == 2:
+            name, args = name[:-2] + "le", args[::-1]
         if name in COMMUTATIVE:
             args = sorted(args, key=repr)
         t = (name,) + tuple(args)
